@@ -1010,12 +1010,13 @@ def bound_record_rule(rep, F, FW):
                     if not set(tgts) & {"lb", "ub"}:
                         continue
                     t_ = render(last_rhs).replace(" ", "")
+                    tx_ = xrender(r, last_rhs, True).replace(" ", "").lower()       # named infinities are looked through
                     if "ReadDouble" in t_:
                         src = ("read", nread)
                         nread += 1
-                    elif t_ == "-infinity":
+                    elif t_ == "-infinity" or (any(k_ in tx_ for k_ in ("infinity", "inff", "huge_val")) and tx_.lstrip("(").startswith("-")):
                         src = "-inf"
-                    elif t_ == "infinity":
+                    elif t_ == "infinity" or any(k_ in tx_ for k_ in ("infinity", "inff", "huge_val")):
                         src = "+inf"
                     else:
                         okc = False
